@@ -143,7 +143,9 @@ def probe(ctx, tag, project, assignments=2):
     from checks import isolate
     d = isolate.probe_dir(ctx, "probe_" + tag)
     os.makedirs(d, exist_ok=True)
-    pname = isolate.probe_name(ctx, "h_probe")
+    # one package name per crate of a run: cargo does not refresh target/debug/<name> for a crate it finds up to date, so
+    # crates sharing a name could be handed each other's binary
+    pname = isolate.probe_name(ctx, "h_probe_" + tag)
     pc.write_crate(d, project, assignments, name=pname)
     exe, log = pc.build_crate(d, name=pname)
     if exe is None:
@@ -253,7 +255,7 @@ def run(ctx):
     # inherits shapes: chain of depth 2 (fr-BE -> fr-CA -> fr), fork (de-AT, de-CH -> de), child of a non-default parent,
     # cycle (es-AR <-> es-MX), explicit inheritance from the default (pt-BR -> en), none (it: implicit default)
     # languages en/fr/ar/ru/pl: five different CLDR plural patterns (the rules written out in Runtime/CldrRules.v)
-    plans = [("ns", dict(n_keys=48, locales=["en", "fr", "fr-CA", "fr-BE", "ar", "ar-EG", "ar-SA", "ru-BY", "ru-UA", "en-GB", "pl"],
+    plans = [("ns", dict(n_keys=36, locales=["en", "fr", "fr-CA", "fr-BE", "ar", "ar-EG", "ar-SA", "ru-BY", "ru-UA", "en-GB", "pl"],
                          namespaces=["common", "home"], wide=True,
                          inherits={"fr-CA": "fr", "fr-BE": "fr-CA", "ar-EG": "ar", "ar-SA": "ar", "ru-BY": "ru-UA",
                                    "ru-UA": "ru-BY", "en-GB": "en"}))]
